@@ -470,6 +470,9 @@ class Matcher:
             if d is not None and not d.is_param and d.op in ops:
                 o = d.ops[0]
                 continue
+            if d is not None and not d.is_param and d.op == "phi" and len(d.incoming) == 1 and d.incoming[0][0] != ("v", d.id):
+                o = d.incoming[0][0]    # a phi with a single (remaining) incoming edge is that value
+                continue
             if o[0] == "ce" and o[1].op in ops:
                 o = o[1].ops[0]
                 continue
